@@ -35,6 +35,8 @@ def main():
         checks = sys.argv[sys.argv.index('--checks') + 1].split(',')
     skip_tests = '--skip-tests' in sys.argv
     meta = json.load(open(os.path.join(src, 'meta.json')))
+    for k in ('evaluation', 'what_was_run', 'evaluations_history', 'breaks_property', 'history'):
+        meta.pop(k, None) if k != 'history' else None
     prop = meta.get('property', sid.split('-')[0]).upper()
     if not prop.startswith('C'):
         prop = sid.split('-')[0].upper()
@@ -90,7 +92,8 @@ def main():
                         'checks': {k: v.get('violation_keys') for k, v in
                                    prev['evaluation'].get('checks', {}).items()}})
     for f in ('patch.diff', 'demo.py'):
-        shutil.copy(os.path.join(src, f), os.path.join(dst, f))
+        if os.path.abspath(os.path.join(src, f)) != os.path.abspath(os.path.join(dst, f)):
+            shutil.copy(os.path.join(src, f), os.path.join(dst, f))
     meta_out = dict(meta)
     if history:
         meta_out['evaluations_history'] = history
